@@ -88,12 +88,12 @@ async fn run_trap<S: Runtime + 'static>(
     let previous_exit_status = env.exit_status;
 
     // Boxing needed for recursion
-    let mut result = Box::pin(read_eval_loop(&RefCell::new(&mut env), &mut lexer)).await;
+    let result = Box::pin(read_eval_loop(&RefCell::new(&mut env), &mut lexer)).await;
 
-    if let Break(Divert::Interrupt(ref mut exit_status)) = result {
+    if let Break(Divert::Interrupt(exit_status)) = result {
         if let Some(exit_status) = exit_status {
             // Propagate the exit status of the error that interrupted the trap
-            *exit_status = env.exit_status
+            env.exit_status = exit_status
         }
     } else {
         // Restore the exit status of the calling context
